@@ -10,7 +10,7 @@ USERS = ["alice", "bob", "carol", "dave"]
 CHANS = ["!c1@localhost", "!c2@localhost", "!c3@localhost"]
 UNUM = {u: i + 1 for i, u in enumerate(USERS)}
 CNUM = {c: i + 1 for i, c in enumerate(CHANS)}
-REASONS = {"FORBIDDEN": 1, "USER_NOT_REGISTERED": 2, "USER_IN_CHANNEL": 4, "CHANNEL_IS_FULL": 5, "POLICY_VIOLATION": 6,
+REASONS = {"FORBIDDEN": 1, "USER_NOT_REGISTERED": 2, "NOT_ALLOWED": 3, "USER_IN_CHANNEL": 4, "CHANNEL_IS_FULL": 5, "POLICY_VIOLATION": 6,
            "RESOURCE_CONFLICT": 7, "CHANNEL_NOT_FOUND": 8, "USER_NOT_IN_CHANNEL": 9, "INTERNAL_SERVER_ERROR": 10, "USERNAME_IN_USE": 11}
 CLOSING = {6, 10}
 PAYLOADS = [b"p-one", b"p-two", b"p-three", b"p-four", b"p-five", b"p-six", b"p-seven", b"p-eight"]
@@ -63,6 +63,20 @@ class CGen:
     def members(self, k, ch):
         i = self.rid()
         return (sl.frame("MEMBERS", [("id", i), ("channel", ch), ("page_size", 100)]), "EReq %d (RMembers %d %d)" % (k, CNUM[ch], i), {"kind": "MEMBERS", "k": k, "ch": ch, "id": i})
+
+    def setacl(self, k, ch, ty, adding, users):
+        i = self.rid()
+        tn = {"join": 1, "publish": 2, "read": 3}[ty]
+        return (sl.frame("SET_CHAN_ACL", [("id", i), ("channel", ch), ("type", ty), ("action", "add" if adding else "remove"),
+                                          ("nids", [u + "@localhost" for u in users])]),
+                "EReq %d (RSetAcl %d %d %s [%s] %d)" % (k, CNUM[ch], tn, b(adding), "; ".join(str(UNUM[u]) for u in users), i),
+                {"kind": "SET_CHAN_ACL", "k": k, "ch": ch, "id": i, "type": ty, "adding": adding, "users": list(users)})
+
+    def getacl(self, k, ch, ty):
+        i = self.rid()
+        tn = {"join": 1, "publish": 2, "read": 3}[ty]
+        return (sl.frame("GET_CHAN_ACL", [("id", i), ("channel", ch), ("type", ty)]),
+                "EReq %d (RGetAcl %d %d %d)" % (k, CNUM[ch], tn, i), {"kind": "GET_CHAN_ACL", "k": k, "ch": ch, "id": i, "type": ty})
 
     def channels(self, k):
         i = self.rid()
@@ -125,6 +139,12 @@ class CGen:
                 self.send(k, [self.members(k, ch)])
                 self.ops[-1]["audit"] = "members"
                 self.ops[-1]["channel"] = ch
+        # the allow-lists as the owners see them (everybody asks; only an owner is told)
+        for ch in CHANS:
+            for ty in ("read", "publish"):
+                for k in sorted(self.live):
+                    self.send(k, [self.getacl(k, ch, ty)])
+                    self.ops[-1]["audit_acl"] = [ch, ty]
 
     def probes(self):
         """after the audit: who administers each channel (a removal on behalf of `dave`, who never connects: FORBIDDEN for
@@ -193,6 +213,10 @@ def frame_out(k, f):
         return "OAck %d %d 2" % (k, g("id"))
     if n == "BROADCAST_ACK":
         return "OAck %d %d 3" % (k, g("id"))
+    if n == "SET_CHAN_ACL_ACK":
+        return "OAck %d %d 5" % (k, g("id"))
+    if n == "CHAN_ACL":
+        return "OAcl %d %d [%s]" % (k, g("id"), "; ".join(str(nid_user(x)) for x in (g("nids") or [])))
     if n == "ERROR":
         reason = REASONS.get(g("reason").decode("latin1"), 998)
         if reason in CLOSING:
@@ -263,7 +287,9 @@ def case_term(case, ob, explained=False):
                     hints.append(nid_user(bytes.fromhex(m["nid"])))
                 if m.get("channel"):
                     hints.append(CNUM.get(bytes.fromhex(m["channel"]).decode("latin1"), 99))
-        hints = sorted(set(h for h in hints if h != 0))
+        # the clean-up walks a HashSet: a round that starts by waiting for a lock leaves no trace in this op, so every
+        # channel is a candidate for "next round", besides the names the observation mentions
+        hints = sorted(set(h for h in hints if h != 0) | set(CNUM.values()))
         xops.append("{| x_acts := [%s]; x_script := %s; x_hints := [%s]; x_gone := [%s]; x_obs := [%s]; x_mod := [%s] |}" % (
             "; ".join(act_term(a) for a in acts), script_term(op.get("script") or []), "; ".join(map(str, hints)),
             "; ".join(map(str, gone)), "; ".join(obs), "; ".join(mods)))
@@ -427,6 +453,47 @@ def waiting_join_hangup_family(r, thorough):
     return cases
 
 
+def acl_family(r, thorough):
+    """allow-lists edited by the owner while other requests are suspended: a JOIN / BROADCAST / LEAVE parked in the
+    modulator or waiting for the channel lock when the list changes; the list emptied again (everybody is admitted)"""
+    cases = []
+    for i in range(16 if thorough else 6):
+        g = CGen(r, cfg_for(r, r.choice([("fwd-event",), ("fwd-broadcast-payload", "fwd-event")]), max_clients=r.choice([3, 10])))
+        a, bb, c = g.open("alice"), g.open("bob"), g.open("carol")
+        ch = r.choice(CHANS)
+        g.send(a, [g.join(a, ch)])
+        g.send(bb, [g.join(bb, ch)])
+        ty = ["read", "publish", "join"][i % 3]
+        n = g.park()
+        # something is suspended holding (JOIN / LEAVE in its announcement) or ahead of (BROADCAST in validation) the lock
+        what = r.choice(["join", "leave", "bcast"])
+        if what == "join":
+            g.send(c, [g.join(c, ch)], [{"park": n}])
+        elif what == "leave":
+            g.send(bb, [g.leave(bb, ch)], [{"park": n}])
+        else:
+            g.send(bb, [g.bcast(bb, ch)], [{"park": n}])
+        listed = r.sample(USERS[:3], r.choice([1, 2]))
+        g.send(a, [g.setacl(a, ch, ty, True, listed)])
+        k = r.choice([a, bb, c])
+        g.send(k, [g.getacl(k, ch, ty)] if r.random() < 0.5 else [g.bcast(k, ch)])
+        g.release(n, r.choice(["ok", "ok", "err"]))
+        g.settle()
+        g.send(a, [g.getacl(a, ch, ty)])
+        for k in sorted(g.live):
+            g.send(k, [g.bcast(k, ch)])
+        if c in g.live:
+            g.send(c, [g.join(c, ch)])
+        g.send(a, [g.setacl(a, ch, ty, False, listed)])      # emptied again: everybody
+        g.send(a, [g.getacl(a, ch, ty)])
+        for k in sorted(g.live):
+            g.send(k, [g.bcast(k, ch)])
+        g.audit()
+        g.probes()
+        cases.append(g.case("acl"))
+    return cases
+
+
 def owner_leave_family(r, thorough):
     """the owner's LEAVE suspended in its first or second announcement while others join, leave, publish; optionally the
     owner's connection goes away meanwhile (the request is cancelled where it stands)"""
@@ -524,8 +591,14 @@ def random_family(r, thorough):
                 g.send(k, [g.leave(k, ch, ob=r.choice([None, None, None] + USERS[:3]))], sc)
             elif x < 0.60:
                 g.send(k, [g.bcast(k, ch)], sc)
-            elif x < 0.68:
+            elif x < 0.64:
                 g.send(k, [g.members(k, ch)], sc)
+            elif x < 0.70:
+                ty = r.choice(["read", "read", "publish", "join"])
+                if r.random() < 0.75:
+                    g.send(k, [g.setacl(k, ch, ty, r.random() < 0.6, r.sample(USERS[:3], r.choice([1, 1, 2])))], sc)
+                else:
+                    g.send(k, [g.getacl(k, ch, ty)], sc)
             elif x < 0.78 and outstanding:
                 g.release(outstanding.pop(r.randrange(len(outstanding))), r.choice(["ok", "ok", "err"]))
             elif x < 0.86:
@@ -539,8 +612,11 @@ def random_family(r, thorough):
                 k2 = r.choice(live)
                 g.batch([("send", k2, [g.join(k2, ch)]), ("release", n, r.choice(["ok", "err"]))] if r.random() < 0.5
                         else [("release", n, r.choice(["ok", "err"])), ("send", k2, [g.leave(k2, ch)])], sc)
-        r.shuffle(outstanding)
-        for n in outstanding:
+        # every park id ever issued is released (again) before the audit: a release written into the same batch as the
+        # request that parks the call comes too early and would leave the call parked for good
+        allp = list(range(1, g.next_park))
+        r.shuffle(allp)
+        for n in allp:
             g.release(n, r.choice(["ok", "ok", "err"]))
         g.settle()
         g.audit()
@@ -550,7 +626,7 @@ def random_family(r, thorough):
 
 
 def histories(r, thorough):
-    return (namesake_family(r, thorough) + waiting_join_hangup_family(r, thorough) + orphan_family(r, thorough) + parked_join_family(r, thorough) + cleanup_family(r, thorough)
+    return (namesake_family(r, thorough) + waiting_join_hangup_family(r, thorough) + acl_family(r, thorough) + orphan_family(r, thorough) + parked_join_family(r, thorough) + cleanup_family(r, thorough)
             + owner_leave_family(r, thorough) + overlap_join_family(r, thorough) + random_family(r, thorough))
 
 
@@ -566,6 +642,7 @@ def monitor(case, obs):
     sessions_ended = {}      # user -> op index at which its latest session ended
     join_sent, left_at = {}, {}
     chans_listed, members_seen, owners = {}, {}, {}
+    acl_seen, acl_touched = {}, set()      # (channel, type) -> reported list (user names); channels whose lists were ever edited
     was_parked = False
     fn, fg = sl.frame_name, srvmon.fget
 
@@ -591,6 +668,8 @@ def monitor(case, obs):
     for t, (op, o) in enumerate(ops):
         for rq in op.get("reqs", []):
             reqs[(rq["k"], rq["id"])] = rq
+            if rq["kind"] == "SET_CHAN_ACL":
+                acl_touched.add(rq["ch"])
             if rq["kind"] == "JOIN" and rq.get("who"):
                 rq["sent_at"], rq["ack_at"] = t, None
                 join_sent.setdefault((rq["who"], rq["ch"]), []).append(rq)
@@ -655,6 +734,10 @@ def monitor(case, obs):
                     members_seen[(k0, op["channel"])] = [x.decode("latin1").split("@")[0] for x in (fg(f, "members") or [])]
                     if len(members_seen[(k0, op["channel"])]) > cfg["max_clients"]:
                         viol.append(("C14", f"{op['channel']} has {len(members_seen[(k0, op['channel'])])} members: max_clients_per_channel is {cfg['max_clients']}", t))
+        if op.get("audit_acl"):
+            for f in fr:
+                if fn(f) == "CHAN_ACL":
+                    acl_seen[tuple(op["audit_acl"])] = [x.decode("latin1").split("@")[0] for x in (fg(f, "nids") or [])]
         if op.get("probe") == "owner":
             rq = op["reqs"][0]
             errs = [fg(f, "reason") for f in fr if fn(f) == "ERROR" and fg(f, "id") == rq["id"]]
@@ -667,14 +750,23 @@ def monitor(case, obs):
                 pass
             m = mset(ch)
             acked = any(fn(f) == "BROADCAST_ACK" and fg(f, "id") == rq["id"] for f in fr)
+            # the read list as reported to the owner at the audit ([] when the lists of this channel were never edited);
+            # unknown (edited, but no live owner to ask): delivery is not judged for this channel
+            rl = acl_seen.get((ch, "read"), None if ch in acl_touched else [])
+            pl = acl_seen.get((ch, "publish"), None if ch in acl_touched else [])
+            permits = lambda lst, u: (not lst) or (u in lst)
             for k2 in sorted(user):
                 if k2 == k0 or k2 in gone:
                     continue
                 got = [f for f in recv.get(k2, {"frames": []})["frames"] if "undecodable" not in f and fn(f) == "MESSAGE" and fg(f, "channel").decode("latin1") == ch]
-                if acked and user[k2] in m and user.get(k0) in m and not got:
-                    viol.append(("C02", f"acknowledged BROADCAST on {ch} by {user.get(k0)}: member {user[k2]} (connection {k2}, listed by MEMBERS) received nothing", t))
+                if acked and rl is not None and user[k2] in m and permits(rl, user[k2]) and user.get(k0) in m and not got:
+                    viol.append(("C02", f"acknowledged BROADCAST on {ch} by {user.get(k0)}: member {user[k2]} (connection {k2}, listed by MEMBERS, admitted by the reported read list {rl}) received nothing", t))
                 if got and user[k2] not in m:
                     viol.append(("C01", f"BROADCAST on {ch}: {user[k2]} (connection {k2}) received it although MEMBERS does not list that user", t))
+                if got and rl is not None and not permits(rl, user[k2]):
+                    viol.append(("C03", f"BROADCAST on {ch}: {user[k2]} (connection {k2}) received it although the reported read list {rl} does not admit that user", t))
+            if acked and pl is not None and not permits(pl, user.get(k0)):
+                viol.append(("C03", f"BROADCAST on {ch} by {user.get(k0)} acknowledged although the reported publish list {pl} does not admit that user", t))
             if acked and user.get(k0) not in m:
                 viol.append(("C04", f"BROADCAST on {ch} acknowledged for {user.get(k0)}, whom MEMBERS does not list", t))
         if op.get("probe") == "departure":
@@ -696,6 +788,26 @@ def monitor(case, obs):
                 if fn(f) == "MEMBERS_ACK" and op["departed"] in [x.decode("latin1").split("@")[0] for x in (fg(f, "members") or [])] \
                         and not live_sessions(op["departed"]):
                     viol.append(("C05", f"{op['departed']} is still listed in MEMBERS of {op['reqs'][0]['ch']} after its last connection ended and the clean-up settled", t))
+    # C12: every request is answered exactly once under its id, whatever was interleaved (all parked calls have been released
+    # before the audit, so nothing is still in progress at the end); a connection that ended may have lost its answer
+    nrep = {}
+    for t, (op, o) in enumerate(ops):
+        for k, v in o["conns"].items():
+            for f in v["frames"]:
+                if "undecodable" in f or fn(f) in ("PING", "PONG", "MESSAGE", "EVENT", "CONNECT_ACK", "IDENTIFY_ACK"):
+                    continue
+                if any(fd["pname"] == "id" for fd in sl.cg.schema()[f["kind"]][2]):
+                    i = fg(f, "id")
+                    if i is not None:
+                        nrep[(int(k), i)] = nrep.get((int(k), i), 0) + 1
+                        if (int(k), i) not in reqs:
+                            viol.append(("C12", f"frame {fn(f)} with id {i} that connection {k} never sent", t))
+    for (k, i), rq in sorted(reqs.items()):
+        n = nrep.get((k, i), 0)
+        if n > 1:
+            viol.append(("C12", f"{rq['kind']} id={i} on connection {k} was answered {n} times", len(ops) - 1))
+        if n == 0 and k not in gone:
+            viol.append(("C12", f"{rq['kind']} id={i} on connection {k} was never answered although the connection is alive and nothing is suspended any more", len(ops) - 1))
     # C04: every channel with members has exactly one of them as its owner (judged from the owner probes)
     for ch in CHANS:
         m = mset(ch)
